@@ -1,2 +1,139 @@
-/-! placeholder driver (property C14 not built yet) -/
-def main : IO Unit := IO.println "bad-op"
+import LlgoVerif.Util
+import LlgoVerif.Model.LinkName
+/-! Line-protocol driver for C14 (link names). One request per line, one answer per line.
+
+Terms (prefix notation, blank separated, strings hex encoded, `-` = empty):
+```
+Ty := B name | N pkg name k Ty*k s idx*s | P Ty | S Ty | A n Ty | M Ty Ty | C dir Ty | O text
+E  := F pkg name | M pkg recv k Ty*k ptr name | K idx E | I k Ty*k E | G pkg name | BD E | TH E | WR E | ST E | RT pkg n
+```
+Requests:
+* `ty <Ty>`            → `ok hex(TypeArgs [t])`
+* `fn <E>`             → `ok hex(FuncName org=false) hex(FuncName org=true) hex(typesFuncName full) hex(in-package name)`
+* `gl <E>`             → `ok hex(linkName e)`
+* `name <cur> <E>`     → `ok hex(linkNameIn cur e)`
+* `hyp <E>`            → `ok <covered 0/1> <synthetic 0/1>` (decidable side conditions of the partial theorems)
+* `sym <cur> <n> (key target)*n <E>` → `ok hex(symbolIn table cur e)` -/
+open LlgoVerif LlgoVerif.Util LlgoVerif.LinkName
+
+def unhexStr (h : String) : Option Str :=
+  (unhex h).bind fun bs => (String.fromUTF8? (ByteArray.mk bs.toArray)).map (·.toList)
+
+def hexStr (s : Str) : String := hex (String.ofList s).toUTF8.toList
+
+abbrev P := StateT (List String) Option
+
+def tok : P String := do
+  match (← get) with
+  | [] => failure
+  | t :: r => set r; pure t
+
+def str : P Str := do
+  match unhexStr (← tok) with
+  | some s => pure s
+  | none => failure
+
+def num : P Nat := do
+  match (← tok).toNat? with
+  | some n => pure n
+  | none => failure
+
+partial def pTy : P Ty := do
+  match (← tok) with
+  | "B" => return .basic (← str)
+  | "N" =>
+    let pkg ← str
+    let name ← str
+    let k ← num
+    let mut ts : List Ty := []
+    for _ in [0:k] do ts := ts ++ [(← pTy)]
+    let s ← num
+    let mut sc : List Nat := []
+    for _ in [0:s] do sc := sc ++ [(← num)]
+    return .named pkg name (Tys.ofList ts) sc
+  | "P" => return .ptr (← pTy)
+  | "S" => return .slice (← pTy)
+  | "A" => let n ← num; return .array n (← pTy)
+  | "M" => let k ← pTy; return .map k (← pTy)
+  | "C" =>
+    let d ← num
+    let dir ← match d with
+      | 0 => pure ChanDir.both | 1 => pure ChanDir.send | 2 => pure ChanDir.recv | _ => failure
+    return .chan dir (← pTy)
+  | "O" => return .other (← str)
+  | _ => failure
+
+def pTys : P Tys := do
+  let k ← num
+  let mut ts : List Ty := []
+  for _ in [0:k] do ts := ts ++ [(← pTy)]
+  return Tys.ofList ts
+
+partial def pE : P Entity := do
+  match (← tok) with
+  | "F" => let p ← str; return .func p (← str)
+  | "M" =>
+    let p ← str
+    let r ← str
+    let ta ← pTys
+    let ptr ← num
+    return .method p r ta (ptr == 1) (← str)
+  | "K" => let i ← num; return .closure (← pE) i
+  | "I" => let ta ← pTys; return .instance (← pE) ta
+  | "G" => let p ← str; return .global p (← str)
+  | "BD" => return .bound (← pE)
+  | "TH" => return .thunk (← pE)
+  | "WR" => return .wrapper (← pE)
+  | "ST" => return .stub (← pE)
+  | "RT" => let p ← str; return .routine p (← num)
+  | _ => failure
+
+def runP {α} (p : P α) (ts : List String) : Option α :=
+  match p.run ts with
+  | some (a, []) => some a
+  | _ => none
+
+def b01 (b : Bool) : String := if b then "1" else "0"
+
+def handle (line : String) : String :=
+  match fields line with
+  | "ty" :: rest =>
+    match runP pTy rest with
+    | some t => "ok " ++ hexStr (typeArgs (.cons t .nil))
+    | none => "bad-op"
+  | "fn" :: rest =>
+    match runP pE rest with
+    | some e =>
+      match e with
+      | .func .. | .method .. =>
+        "ok " ++ hexStr (linkName e) ++ " " ++ hexStr (origName e) ++ " " ++ hexStr (origName e) ++ " " ++ hexStr (inPkgName e)
+      | _ => "bad-op"
+    | none => "bad-op"
+  | "gl" :: rest =>
+    match runP pE rest with
+    | some (.global p n) => "ok " ++ hexStr (linkName (.global p n))
+    | _ => "bad-op"
+  | "name" :: cur :: rest =>
+    match unhexStr cur, runP pE rest with
+    | some c, some e => "ok " ++ hexStr (linkNameIn c e)
+    | _, _ => "bad-op"
+  | "hyp" :: rest =>
+    match runP pE rest with
+    | some e => "ok " ++ b01 e.ok ++ " " ++ b01 e.isSynthetic
+    | none => "bad-op"
+  | "sym" :: cur :: rest =>
+    let p : P (LinkTable × Entity) := do
+      let n ← num
+      let mut t : LinkTable := []
+      for _ in [0:n] do
+        let k ← str
+        let v ← str
+        t := t ++ [(k, v)]
+      let e ← pE
+      return (t, e)
+    match unhexStr cur, runP p rest with
+    | some c, some (t, e) => "ok " ++ hexStr (symbolIn t c e)
+    | _, _ => "bad-op"
+  | _ => "bad-op"
+
+def main : IO Unit := lineLoop handle
